@@ -6,6 +6,7 @@ package zzverif
 
 import (
 	"fmt"
+	opb "github.com/google/fhir/go/proto/google/fhir/proto/r4/core/resources/observation_go_proto"
 	"reflect"
 	"sort"
 	"strings"
@@ -41,12 +42,43 @@ var c03Templates = []string{
 	"Patient.name.given.intersect(%givens)", "%givens.intersect(Patient.name.given)", "Patient.name.given.exclude(%givens)", "%givens.exclude(Patient.name.given)", "%prims.distinct()", "%prims.isDistinct()", "%prims.intersect(%prims)", "%prims = %prims", "%prims.where($this = 1)", "%prims.select($this.toString())", "%givens.where($this = 'zz')", "%givens & 'x'", "%prims.exclude(%givens)", "Patient.name.use.intersect(%prims)", "%prims.first() + 1", "%givens.first().length()", "%prims.skip(5) < @2021", "%givens.all($this.exists())", "%prims.take(2).combine(%givens)",
 	"Patient.birthDate = @1974-12-25", "Patient.birthDate < today()", "Patient.birthDate.toString()", "Patient.birthDate + 1 year", "Patient.descendants().where($this is date or $this is dateTime).select($this.toString())", "Patient.birthDate | Patient.deceased", "Patient.birthDate is date", "%pat.birthDate.toDateTime()", "Patient.descendants().select($this = $this)",
 	"%names.select(%spare)", "%names.select(%spare.take(1))", "%names.select(%shared1)", "Patient.name.select(%spare.take(2))", "%names.select(%one)", "%names.select(%shared1.take(1))", "%spare.select(%one)", "%names.select(%givens.take(1))", "%names.select(%spare.skip(1))", "%names.select(%spare.tail())", "%context.select(%names.take(1))", "%names.select(%e | %one)", "%spare.where(true).select(%shared2)", "%names.select(iif(true, %spare.take(1)))",
+	"%context.descendants().select($this = $this)", "%context.descendants().where($this is Reference).select($this = $this)", "%context.descendants().where($this is Reference).distinct()", "%context.children().select($this != $this)", "Observation.subject = Observation.performer", "Observation.subject != Observation.subject", "Observation.performer.distinct()", "Observation.performer.exclude(Observation.subject)", "Observation.subject.reference",
 	"Patient.name.exclude(Patient.name.take(1))", "Patient.name.intersect(%names)", "iif(%e.exists(), %spare, %shared1)", "%spare.join(',')", "%strs2.join('-') & %e", "%spare.count() + %e.count()", "%spare.zzNoSuchFn()", "%spare.where($this > 'x')", "%names.family.upper() & %e",
 }
 
 func c03Gen(s Src) c03Case {
 	c := c03Case{Spare: s.Range(1, 3), Empty: s.Bool(), Sloppy: s.Prob(20)}
-	switch s.Intn(10) {
+	switch s.Intn(12) {
+	case 10, 11:
+		// systematic: every implemented table function applied to a caller-owned collection,
+		// optionally narrowed by a subsetting function that returns a sub-slice of it
+		vs := []string{"%spare", "%names", "%shared1", "%shared2", "%givens", "%prims", "%one", "%strs2"}
+		subs := []string{"", "", ".take(1)", ".take(2)", ".skip(1)", ".tail()", ".first()", ".where(true)", ".take(1).tail()", ".skip(1).take(1)"}
+		for try := 0; try < 20; try++ {
+			f := pickOne(s, fnSpecs)
+			if placeholderFuncs()[f.Name] || f.Spec == "STU" {
+				continue
+			}
+			args := append([]string{}, f.Args...)
+			if len(args) > f.Max {
+				args = args[:f.Max]
+			}
+			n := f.Min
+			if f.Max > f.Min && s.Bool() {
+				n = f.Max
+			}
+			args = args[:n]
+			for i := range args {
+				if i < len(f.Kinds) && f.Kinds[i] == "coll" && s.Bool() {
+					args[i] = pickOne(s, vs) + pickOne(s, subs)
+				}
+			}
+			c.Src = pickOne(s, vs) + pickOne(s, subs) + "." + f.Name + "(" + strings.Join(args, ", ") + ")"
+			break
+		}
+		if c.Src == "" {
+			c.Src = pickOne(s, c03Templates)
+		}
 	case 0, 1, 2, 3:
 		c.Src = pickOne(s, c03Templates)
 	case 4:
@@ -256,6 +288,15 @@ func c03Run(ctx *Ctx, c c03Case) {
 			}
 		}
 	}
+	// a resource whose references are stored in uri form (relative, versioned, fragment, absolute)
+	uriRef := func(u string) *dtpb.Reference {
+		return &dtpb.Reference{Reference: &dtpb.Reference_Uri{Uri: &dtpb.String{Value: u}}}
+	}
+	resources = append(resources, &opb.Observation{
+		Id:        &dtpb.Id{Value: "o1"},
+		Subject:   uriRef("Patient/123"),
+		Performer: []*dtpb.Reference{uriRef("Practitioner/7/_history/2"), uriRef("#p1"), uriRef("http://example.org/fhir/Patient/123"), uriRef("Patient/123")},
+	})
 	sentinel := func(i int) any { return system.String(fmt.Sprintf("SENTINEL-%d", i)) }
 	var backs []*backing
 	mk := func(name string, items []any, spare int) system.Collection {
